@@ -281,6 +281,25 @@ pub fn mask(out: &mut Out, thorough: bool) {
             let ch = hash_int(bases.0[0].to_string() + &pk.b.to_string() + &cv.to_string() + &t.to_string());
             out.push(&format!("{}/pok_r/s1/r", tag), "generate_proof", vec!["floor(s1 / c) vs r (randomness of C)".into()],
                 if masked(&s1, &ch, &cc.randomness) { "accept".into() } else { "reject".into() }, &["expect-accept", "mask"]);
+            // with a trusted-party commitment: the same-secrets proof carries its challenge and one response per hidden attribute
+            let tp = CL03CommitmentPublicKey::generate::<CS>(None, Some(n));
+            let ct = Commitment::<CL03<CS>>::commit_with_commitment_pk(&m, &tp, Some(&u));
+            if let Ok(zkt) = try_call(|| ZKPoK::<CL03<CS>>::generate_proof(&m, cc, Some(ct.cl03Commitment()), pk, &bases, Some(&tp), &u)) {
+                let jt = jv(&zkt);
+                if !at(&jt, "/CL03/proof_C_Ctrusted").is_null() {
+                    let ch = get_int(at(&jt, "/CL03/proof_C_Ctrusted/challenge"));
+                    for (k, i) in u.iter().enumerate() {
+                        let d = get_int(at(&jt, &format!("/CL03/proof_C_Ctrusted/d/{}", k)));
+                        out.push(&format!("{}/trusted/d[{}]/m[{}]", tag, k, i), "generate_proof (with C_trusted)", vec![format!("floor(d[{}] / challenge) vs m[{}]", k, i)],
+                            if masked(&d, &ch, &m[*i].value) { "accept".into() } else { "reject".into() }, &["expect-accept", "mask"]);
+                    }
+                    for (f, secret, what) in [("d_1", cc.randomness.clone(), "randomness of C"), ("d_2", ct.cl03Commitment().randomness.clone(), "randomness of C_trusted")] {
+                        let d = get_int(at(&jt, &format!("/CL03/proof_C_Ctrusted/{}", f)));
+                        out.push(&format!("{}/trusted/{}", tag, f), "generate_proof (with C_trusted)", vec![format!("floor({} / challenge) vs {}", f, what)],
+                            if masked(&d, &ch, &secret) { "accept".into() } else { "reject".into() }, &["expect-accept", "mask"]);
+                    }
+                }
+            }
         }
     }
 }
